@@ -235,6 +235,12 @@ theorem C19.parallel_dir_orth_axes {K : Type} [CommRing K] :
       simp only [Det3.normalRaw, V3.dot, V3.cross]; ring
     · rw [Par3.detToSrcRaw, M3.normSq_mulVec R h]; rfl
 
+/-- the hypothesis "R orthonormal" is satisfied by every rotation matrix the code builds
+(`rot_orthonormal_*`), e.g. a non-trivial one: -/
+example : ∃ R : M2 ℚ, R.transpose.mul R = M2.one ∧ R ≠ M2.one :=
+  ⟨euler2 (3 / 5) (4 / 5), (C19.rot_orthonormal_2d _ _ (by norm_num)).1, by
+    intro h; have := congrArg M2.a11 h; simp [euler2, M2.one] at this; norm_num at this⟩
+
 /-- for flat detectors `deriv` IS the detector axis, so the statement above reads
 `⟨det_to_src, det_axis(angle)⟩ = 0`. -/
 example (a : V2 ℚ) (p : P1 ℚ) : (Det2.flat a).deriv p = a := rfl
@@ -342,6 +348,12 @@ theorem C19.frommatrix_consistent {K : Type} [CommRing K] (Q : M3 K)
     ext <;> simp only [V3.sub, V3.zero] <;> ring
   simp only [Par3.refpoint, e1, e2, h2]
   ext <;> simp only [V3.add, V3.zero, M3.mulVec] <;> ring
+
+example : ∃ Q : M3 ℚ, Q.transpose.mul Q = M3.one ∧ Q.det = 1 ∧ Q.a12 ≠ 0 :=
+  ⟨axisRot ⟨2 / 7, 3 / 7, 6 / 7⟩ (3 / 5) (4 / 5),
+    (C19.rot_orthonormal_axis _ _ _ (by norm_num) (by norm_num [V3.normSq, V3.dot])).1,
+    (C19.rot_orthonormal_axis _ _ _ (by norm_num) (by norm_num [V3.normSq, V3.dot])).2,
+    by norm_num [axisRot]⟩
 
 /-- The 2d analogue (`Parallel2dGeometry.frommatrix` with a rotation `Q = euler2 c' s'`,
 which commutes with the motion rotation). -/
@@ -484,6 +496,11 @@ theorem C19.factory_covers_volume_fan_partial {K : Type} [Field K] [LinearOrder 
     linarith
   · exact key xt h2.2
 
+example : -fanHalfWidth (5 : ℚ) 10 10 ≤ fanDetCoord 10 10 3 4 ∧
+    fanDetCoord (10 : ℚ) 10 3 4 ≤ fanHalfWidth 5 10 10 :=
+  C19.factory_covers_volume_fan_partial 5 10 10 3 4 (by norm_num) (by norm_num) (by norm_num)
+    (by norm_num) (by norm_num)
+
 /-- Counterexample on the model (finding F19c): `rho = 5`, `src_radius = det_radius = 10`,
 the point `(xt, xc) = (4, -3)` of the circle of radius 5 is seen at `80/7 > 10 = w/2`. -/
 theorem C19.factory_covers_volume_fan_fails :
@@ -503,6 +520,10 @@ theorem C19.factory_cone_height_fails {K : Type} [Field K] [LinearOrder K]
   simp only [coneHalfHeightRaw]
   rw [div_mul_eq_mul_div, div_lt_div_iff₀ hh hd]
   nlinarith [mul_pos hz hr, mul_pos (mul_pos hz hr) (sub_pos.mpr hlt)]
+
+example : coneHalfHeightRaw (3 : ℚ) 5 10 10 < 3 * (10 + 10) / 4 :=
+  C19.factory_cone_height_fails 3 4 5 10 10 (by norm_num) (by norm_num) (by norm_num)
+    (by norm_num) (by norm_num)
 
 /-! ## shapes of vectorised evaluation -/
 
